@@ -175,6 +175,14 @@ func observe(r *sdklog.Record) observation {
 	})
 	o.Dropped = r.DroppedAttributes()
 	o.LenOK = r.AttributesLen() == len(o.Attrs)
+	// an early-stopping walk must stop: f is called exactly min(k+1, len) times
+	for _, k := range []int{0, len(o.Attrs) / 2} {
+		calls := 0
+		r.WalkAttributes(func(log.KeyValue) bool { calls++; return calls <= k })
+		if want := min(k+1, len(o.Attrs)); calls != want {
+			o.LenOK = false
+		}
+	}
 	return o
 }
 
@@ -244,7 +252,18 @@ func (p *editProc) OnEmit(_ context.Context, r *sdklog.Record) error {
 func (p *editProc) Shutdown(context.Context) error   { return nil }
 func (p *editProc) ForceFlush(context.Context) error { return nil }
 
+const (
+	howOptions  = iota // WithAttributeCountLimit / WithAttributeValueLengthLimit
+	howEnv             // OTEL_LOGRECORD_ATTRIBUTE_COUNT_LIMIT / OTEL_LOGRECORD_ATTRIBUTE_VALUE_LENGTH_LIMIT
+	howDefaults        // nothing given: 128 / -1
+	howBoth            // options given and the environment set to other values: the options win
+	howZeroRecord      // a zero-value sdklog.Record edited directly (limits 0 / 0), no logger involved
+)
+
+var logEnvKeys = []string{"OTEL_LOGRECORD_ATTRIBUTE_COUNT_LIMIT", "OTEL_LOGRECORD_ATTRIBUTE_VALUE_LENGTH_LIMIT"}
+
 type program struct {
+	How            int
 	LenLim, CntLim int
 	Init           []kvd // attributes of the emitted log.Record
 	Ops            []op  // edits made by the processor
@@ -262,12 +281,35 @@ func run(p program) (exported observation, cloneObs *observation, err error) {
 func runProc(p program) (exported observation, ed *editProc, err error) {
 	exp := &recExporter{}
 	ed = &editProc{ops: p.Ops, cloneAt: p.CloneAt, onClone: p.OnClone, sched: p.Sched}
-	lp := sdklog.NewLoggerProvider(
-		sdklog.WithProcessor(ed),
-		sdklog.WithProcessor(sdklog.NewSimpleProcessor(exp)),
-		sdklog.WithAttributeCountLimit(p.CntLim),
-		sdklog.WithAttributeValueLengthLimit(p.LenLim),
-	)
+	if p.How == howZeroRecord {
+		var zr sdklog.Record
+		for _, a := range p.Init {
+			zr.AddAttributes(buildKVs([]kvd{a})...)
+		}
+		if err := ed.OnEmit(context.Background(), &zr); err != nil {
+			return exported, ed, err
+		}
+		return observe(&zr), ed, nil
+	}
+	popts := []sdklog.LoggerProviderOption{sdklog.WithProcessor(ed), sdklog.WithProcessor(sdklog.NewSimpleProcessor(exp))}
+	for _, k := range logEnvKeys {
+		os.Unsetenv(k)
+	}
+	switch p.How {
+	case howOptions:
+		popts = append(popts, sdklog.WithAttributeCountLimit(p.CntLim), sdklog.WithAttributeValueLengthLimit(p.LenLim))
+	case howEnv:
+		os.Setenv(logEnvKeys[0], strconv.Itoa(p.CntLim))
+		os.Setenv(logEnvKeys[1], strconv.Itoa(p.LenLim))
+	case howBoth:
+		os.Setenv(logEnvKeys[0], strconv.Itoa(p.CntLim+3))
+		os.Setenv(logEnvKeys[1], strconv.Itoa(p.LenLim+2))
+		popts = append(popts, sdklog.WithAttributeValueLengthLimit(p.LenLim), sdklog.WithAttributeCountLimit(p.CntLim))
+	}
+	lp := sdklog.NewLoggerProvider(popts...)
+	for _, k := range logEnvKeys {
+		os.Unsetenv(k)
+	}
 	defer lp.Shutdown(context.Background())
 	var rec log.Record
 	rec.SetBody(log.StringValue("b"))
@@ -405,13 +447,50 @@ func genProgram(r *vgen.Rand) program {
 		n = r.Range(4, 10)
 	}
 	for i := 0; i < n; i++ {
-		p.Ops = append(p.Ops, op{Set: r.Chance(1, 5), Attrs: genAttrs(r, 9, &fresh, poolN)})
+		o := op{Set: r.Chance(1, 5), Attrs: genAttrs(r, 9, &fresh, poolN)}
+		switch r.Intn(24) { // input shapes: all-equal keys, reversed / pre-sorted key order, very long
+		case 0:
+			k := vgen.Pick(r, keyPool)
+			o.Attrs = nil
+			for j, m := 0, r.Range(2, 9); j < m; j++ {
+				o.Attrs = append(o.Attrs, kvd{K: k, V: genValue(r, 1)})
+			}
+		case 1:
+			o.Attrs = nil
+			for j := poolN - 1; j >= 0; j-- {
+				o.Attrs = append(o.Attrs, kvd{K: keyPool[j], V: genValue(r, 2)})
+			}
+		case 2:
+			o.Attrs = nil
+			for j := 0; j < poolN; j++ {
+				o.Attrs = append(o.Attrs, kvd{K: keyPool[j], V: genValue(r, 2)})
+			}
+		case 3:
+			o.Attrs = nil
+			for j, m := 0, r.Range(150, 300); j < m; j++ {
+				o.Attrs = append(o.Attrs, kvd{K: fmt.Sprintf("k%d", r.Intn(40)), V: val{Kind: log.KindInt64, I: int64(j)}})
+			}
+		}
+		p.Ops = append(p.Ops, o)
+	}
+	switch r.Intn(14) { // how the limits reach the record
+	case 0:
+		p.How = howEnv
+	case 1:
+		p.How = howBoth
+	case 2:
+		p.How, p.CntLim, p.LenLim = howDefaults, 128, -1
+	case 3:
+		p.How, p.CntLim, p.LenLim = howZeroRecord, 0, 0
 	}
 	return p
 }
 
 func bigProgram(r *vgen.Rand) program {
 	p := program{CloneAt: -1, CntLim: 128, LenLim: vgen.Pick(r, []int{-1, 3})}
+	if r.Bool() { // the default limits (nothing configured): 128 / unlimited
+		p.How, p.LenLim = howDefaults, -1
+	}
 	mk := func(n, off int) []kvd {
 		kvs := make([]kvd, n)
 		for i := range kvs {
@@ -468,15 +547,17 @@ func main() {
 			od = append(od, s)
 			offered += len(x.Attrs)
 		}
-		desc := map[string]any{"count_limit": p.CntLim, "value_length_limit": p.LenLim, "ops": od}
+		desc := map[string]any{"count_limit": p.CntLim, "value_length_limit": p.LenLim, "ops": od,
+			"limits_given_through": []string{"provider options", "environment", "defaults", "options over environment", "zero-value Record edited directly"}[p.How]}
 		guard(desc, func() {
+			w.Tally(fmt.Sprintf("how=%d", p.How))
 			ex, cl, err := run(p)
 			if err != nil {
 				w.Violation(err.Error(), desc)
 				return
 			}
 			if !ex.LenOK || (cl != nil && !cl.LenOK) {
-				w.Violation("AttributesLen differs from the number of attributes walked", desc)
+				w.Violation("AttributesLen differs from the number of attributes walked, or an early-stopping WalkAttributes did not stop", desc)
 				return
 			}
 			desc["observed"] = map[string]any{"attrs": descKVs(ex.Attrs), "dropped": ex.Dropped}
@@ -518,6 +599,9 @@ func main() {
 		// F-C04-1 (log copy of truncate)
 		{LenLim: 3, CntLim: -1, CloneAt: -1, Ops: []op{{Attrs: []kvd{{"k", sv(strings.Repeat(fffd, 10))}, {"l", sv("ab" + fffd + "cdef")}}}}},
 		{LenLim: 0, CntLim: -1, CloneAt: -1, Ops: []op{{Attrs: []kvd{{"k", sv("\xff")}}}}},
+		// all-equal keys, reversed order, a zero-value Record edited directly (limits 0/0)
+		{LenLim: -1, CntLim: 2, CloneAt: -1, Init: []kvd{{"a", sv("0")}}, Ops: []op{{Attrs: []kvd{{"b", sv("1")}, {"b", sv("2")}, {"b", sv("3")}, {"b", sv("4")}}}, {Attrs: []kvd{{"c", sv("5")}, {"b", sv("6")}, {"a", sv("7")}}}}},
+		{How: howZeroRecord, LenLim: 0, CntLim: 0, CloneAt: -1, Ops: []op{{Attrs: []kvd{{"a", sv("abc")}, {"a", sv("d")}}}, {Set: true, Attrs: []kvd{{"b", val{Kind: log.KindSlice, L: []val{sv("xyz")}}}}}}},
 		// F-C17-2: count limit 0 documented as "no attributes"
 		{LenLim: -1, CntLim: 0, CloneAt: -1, Init: []kvd{{"a", sv("1")}}, Ops: []op{{Attrs: []kvd{{"b", sv("2")}}}}},
 		{LenLim: -1, CntLim: 0, CloneAt: -1, Ops: []op{{Set: true, Attrs: []kvd{{"a", sv("1")}, {"a", sv("2")}}}}},
@@ -554,6 +638,9 @@ func main() {
 				first.Attrs = append(first.Attrs, kvd{K: keyPool[j], V: genValue(r, 1)})
 			}
 			p.CntLim = vgen.Pick(r, []int{-1, 128, 8, 9, 12})
+			if p.How == howDefaults || p.How == howZeroRecord {
+				p.How = howOptions
+			}
 			p.Ops = append([]op{first}, p.Ops...)
 			p.CloneAt = r.Range(1, max(1, p.CloneAt))
 			for j := p.CloneAt; j < len(p.Ops); j++ {
@@ -563,7 +650,7 @@ func main() {
 		}
 		addProgram(p, "clone")
 	}
-	for i := o.Count(6, 100); i > 0; i-- {
+	for i := o.Count(16, 100); i > 0; i-- {
 		addProgram(bigProgram(r), "record-128")
 	}
 
@@ -577,6 +664,9 @@ func main() {
 				first.Attrs = append(first.Attrs, kvd{K: keyPool[j], V: genValue(r, 1)})
 			}
 			p.CntLim = vgen.Pick(r, []int{-1, 128, 8, 9, 12, 7})
+			if p.How == howDefaults || p.How == howZeroRecord {
+				p.How = howOptions
+			}
 			p.Ops = append(p.Ops, first)
 			if r.Bool() {
 				p.Ops = append(p.Ops, op{Attrs: genAttrs(r, 4, &fresh, 8)})
@@ -619,7 +709,7 @@ func main() {
 			var td []string
 			for _, t := range ed.trace {
 				if !t[0].LenOK || !t[1].LenOK {
-					w.Violation("AttributesLen differs from the number of attributes walked", desc)
+					w.Violation("AttributesLen differs from the number of attributes walked, or an early-stopping WalkAttributes did not stop", desc)
 					return
 				}
 				tr = append(tr, vgen.Pair(t[0].coq(), t[1].coq()))
@@ -635,6 +725,67 @@ func main() {
 			w.Tally(fmt.Sprintf("alias:steps=%d", len(p.Sched)))
 			w.Add(vgen.App("CAlias", vgen.Z(int64(p.LenLim)), vgen.Z(int64(p.CntLim)), vgen.List(ops1), vgen.List(sch), vgen.List(tr)), desc, "alias", true)
 		})
+	}
+
+	// ---- the log copy of truncate: one record per limit, one string attribute per input ----
+	type tcase struct {
+		lim int
+		s   string
+	}
+	var tcs []tcase
+	for i := o.Count(500, 10000); i > 0; i-- {
+		s := genString(r)
+		lim := vgen.Pick(r, []int{-1, 0, 1, 2, 3, 5, 10})
+		if r.Bool() {
+			lim = max(0, len([]rune(s))+r.Range(-2, 1))
+		}
+		tcs = append(tcs, tcase{lim, s})
+	}
+	seconds := []byte{0x7F, 0x80, 0x8F, 0x90, 0x9F, 0xA0, 0xBF, 0xC0}
+	step := 4
+	if o.Tier == "thorough" {
+		step = 1
+	}
+	for b1 := 0x80 + int(o.Seed%uint64(step)); b1 <= 0xFF; b1 += step { // decoder boundary sweep (a quarter of the lead bytes per quick run)
+		for _, b2 := range seconds {
+			tcs = append(tcs, tcase{2, string([]byte{byte(b1), b2, 0x80, 0x80, 'z', 'y'})})
+		}
+	}
+	byLim := map[int][]string{}
+	var order []int
+	for _, t := range tcs {
+		if _, ok := byLim[t.lim]; !ok {
+			order = append(order, t.lim)
+		}
+		byLim[t.lim] = append(byLim[t.lim], t.s)
+	}
+	for _, lim := range order {
+		group := byLim[lim]
+		for start := 0; start < len(group); start += 100 {
+			chunk := group[start:min(start+100, len(group))]
+			desc := map[string]any{"op": "truncate-batch", "limit": lim}
+			guard(desc, func() {
+				var init []kvd
+				for i, s := range chunk {
+					init = append(init, kvd{K: fmt.Sprintf("s%d", i), V: sv(s)})
+				}
+				ex, _, err := run(program{LenLim: lim, CntLim: -1, CloneAt: -1, Init: init})
+				if err != nil || len(ex.Attrs) != len(chunk) {
+					w.Violation("string attributes lost", desc)
+					return
+				}
+				for i, s := range chunk {
+					a := ex.Attrs[i]
+					d := map[string]any{"op": "truncate", "limit": lim, "s": fmt.Sprintf("%q", s), "out": descValue(a.Value)}
+					if a.Key != fmt.Sprintf("s%d", i) || a.Value.Kind() != log.KindString {
+						w.Violation("string attribute changed key or kind", d)
+						continue
+					}
+					w.Tally("truncate")
+					w.Add(vgen.App("CTrunc", vgen.Z(int64(lim)), vgen.HxS(s), vgen.HxS(a.Value.AsString())), d, "truncate", lim >= 0 && len(s) > lim)
+				}
+			})
+		}
 	}
 
 	if err := w.Flush(); err != nil {
